@@ -88,7 +88,8 @@ theorem tie_exec_dispatch :
     KoordVerif.Generated.C10.resourceForceUpdateSeconds = 60 := by decide
 
 /-- the node-annotation sources (node reservation `reservedCPUs`, exclusive system-QoS cpuset): every place of the package that
-    reads one of them handles its parse error WITHOUT leaving the function, so an unreadable source never hides the other one
+    reads one of them handles its parse error WITHOUT leaving the function while another source is still to be read further
+    down in that function, so an unreadable source never hides the other one
     (model `effReserved` / `effSysExcl`; theorems `unreadable_source_as_absent`, `wellformed_sources_protect`;
     `folded_early_return_counterexample` is the shape this excludes). -/
 theorem tie_node_sources_independent :
